@@ -877,6 +877,34 @@ class Engine:
              self.pruned, self.zsolver, self.zdom_added, self.zmulti_added, self.steps, self.ndec, self.depth) = saved
         return tmask if ok else -1
 
+    def subexplore(self, thunk, max_paths=4000):
+        """explore ALL paths of thunk() under the current path condition without committing to any of them.
+        returns list of (list of branch-condition nodes added on that sub-path, result). The outer path state is restored."""
+        base = (list(self.decisions), self.dpos, self.pending, dict(self.dom), list(self.multi), set(self.entangled),
+                list(self.trace), list(self.pruned), self.nvars, dict(self.init_dom), self.depth, list(self.gstack))
+        results = []
+        work = [[]]
+        try:
+            while work:
+                if len(results) > max_paths: raise Inconclusive('sub-exploration exceeds %d paths' % max_paths)
+                dec = work.pop()
+                self.decisions = list(dec); self.dpos = 0; self.pending = []
+                self.dom = dict(base[3]); self.multi = list(base[4]); self.entangled = set(base[5])
+                self.trace = list(base[6]); self.pruned = []; self.nvars = base[8]; self.init_dom = dict(base[9])
+                self.depth = base[10]; self.gstack = list(base[11])
+                self.zsolver = None
+                try:
+                    r = thunk()
+                except Infeasible:
+                    work.extend(self.pending); continue
+                results.append((self.trace[len(base[6]):], r))
+                work.extend(self.pending)
+        finally:
+            (self.decisions, self.dpos, self.pending, self.dom, self.multi, self.entangled, self.trace, self.pruned,
+             self.nvars, self.init_dom, self.depth, self.gstack) = base
+            self.zsolver = None
+        return results
+
     def summarize_pure(self, f, arg):
         """f: fn(u8) -> bool, arg unary: fold all internal paths into one unary node"""
         key = (self.P.name, f.name, arg.v.tid)
